@@ -168,6 +168,9 @@ def decide_and_parallel() -> dict:
         d['user'] = 'orig'
         d['history'] = ['earlier pass']
         d['stats'] = {'runs': 1}
+        # an earlier layout step: the two mappings differ
+        d.initial_mapping = [1, 0]
+        d.final_mapping = [0, 1]
         before = view(c, d)
         p = DoThenDecide(lambda a, b, accept=accept: accept, [Mutate()])
         H.install()
@@ -190,6 +193,8 @@ def decide_and_parallel() -> dict:
             c = base_circuit()
             d = PassData(c)
             d['user'] = 'orig'
+            d.initial_mapping = [1, 0]
+            d.final_mapping = [0, 1]
             p = ParallelDo(
                 [[Mutate(k)] for k in ks],
                 lambda a, b: a.num_operations < b.num_operations,
@@ -205,7 +210,8 @@ def decide_and_parallel() -> dict:
                     'circuit has %d operations, the selected branch '
                     'produces %d' % (c.num_operations, want_ops)))
             if d.get('user') != 'changed' or d.seed != 99 \
-                    or list(d.final_mapping) != [1, 0]:
+                    or list(d.final_mapping) != [1, 0] \
+                    or list(d.initial_mapping) != [0, 1]:
                 fails.append(_fail(
                     'ParallelDo.run', (ks, pick_first),
                     'pass data of the selected branch not adopted: %s'
